@@ -230,6 +230,11 @@ func (o *OvsdbServer) Cancel(client *rpc2.Client, args []interface{}, reply *[]i
 
 // Monitor monitors a given database table and provides updates to the client via an RPC callback
 func (o *OvsdbServer) Monitor(client *rpc2.Client, args []json.RawMessage, reply *ovsdb.TableUpdates) error {
+	// monitors are set up in between transactions, otherwise the updates of a
+	// transaction that has notified its monitors but is yet to be committed
+	// would be missed
+	o.txnMutex.Lock()
+	defer o.txnMutex.Unlock()
 	var db string
 	if err := json.Unmarshal(args[0], &db); err != nil {
 		return fmt.Errorf("database %v is not a string", args[0])
@@ -284,6 +289,11 @@ func (o *OvsdbServer) Monitor(client *rpc2.Client, args []json.RawMessage, reply
 
 // MonitorCond monitors a given database table and provides updates to the client via an RPC callback
 func (o *OvsdbServer) MonitorCond(client *rpc2.Client, args []json.RawMessage, reply *ovsdb.TableUpdates2) error {
+	// monitors are set up in between transactions, otherwise the updates of a
+	// transaction that has notified its monitors but is yet to be committed
+	// would be missed
+	o.txnMutex.Lock()
+	defer o.txnMutex.Unlock()
 	var db string
 	if err := json.Unmarshal(args[0], &db); err != nil {
 		return fmt.Errorf("database %v is not a string", args[0])
@@ -338,6 +348,11 @@ func (o *OvsdbServer) MonitorCond(client *rpc2.Client, args []json.RawMessage, r
 
 // MonitorCondSince monitors a given database table and provides updates to the client via an RPC callback
 func (o *OvsdbServer) MonitorCondSince(client *rpc2.Client, args []json.RawMessage, reply *ovsdb.MonitorCondSinceReply) error {
+	// monitors are set up in between transactions, otherwise the updates of a
+	// transaction that has notified its monitors but is yet to be committed
+	// would be missed
+	o.txnMutex.Lock()
+	defer o.txnMutex.Unlock()
 	var db string
 	if err := json.Unmarshal(args[0], &db); err != nil {
 		return fmt.Errorf("database %v is not a string", args[0])
